@@ -84,24 +84,26 @@ Record st := mk {
   cb : nat -> cbst;               (* stop callback of party k *)
   slot : nat -> option res;       (* accept: complete_/state_; call: Some RDone = cancelled_ *)
   delivered : nat -> list res;    (* completions of receiver k, newest first *)
-  tres : nat -> option res        (* try_call: Some RValue true, Some RDone false; try_accept: payload / RDone *)
+  tres : nat -> option res;       (* try_call: Some RValue true, Some RDone false; try_accept: payload / RDone *)
+  taken : nat -> option nat       (* ghost (never read by step): who ran the call of sender i *)
 }.
 
 Definition upd {A} (f : nat -> A) (k : nat) (v : A) : nat -> A :=
   fun x => if Nat.eqb x k then v else f x.
 
-Definition set_w v s := mk (hs s) (nthr s) (kd s) v (aborted s) (stk s) (cstop s) (cstart s) (ccomp s) (sync s) (stopreq s) (cb s) (slot s) (delivered s) (tres s).
-Definition set_aborted v s := mk (hs s) (nthr s) (kd s) (w s) v (stk s) (cstop s) (cstart s) (ccomp s) (sync s) (stopreq s) (cb s) (slot s) (delivered s) (tres s).
-Definition set_stk v s := mk (hs s) (nthr s) (kd s) (w s) (aborted s) v (cstop s) (cstart s) (ccomp s) (sync s) (stopreq s) (cb s) (slot s) (delivered s) (tres s).
-Definition set_cstop v s := mk (hs s) (nthr s) (kd s) (w s) (aborted s) (stk s) v (cstart s) (ccomp s) (sync s) (stopreq s) (cb s) (slot s) (delivered s) (tres s).
-Definition set_cstart v s := mk (hs s) (nthr s) (kd s) (w s) (aborted s) (stk s) (cstop s) v (ccomp s) (sync s) (stopreq s) (cb s) (slot s) (delivered s) (tres s).
-Definition set_ccomp v s := mk (hs s) (nthr s) (kd s) (w s) (aborted s) (stk s) (cstop s) (cstart s) v (sync s) (stopreq s) (cb s) (slot s) (delivered s) (tres s).
-Definition set_sync v s := mk (hs s) (nthr s) (kd s) (w s) (aborted s) (stk s) (cstop s) (cstart s) (ccomp s) v (stopreq s) (cb s) (slot s) (delivered s) (tres s).
-Definition set_stopreq v s := mk (hs s) (nthr s) (kd s) (w s) (aborted s) (stk s) (cstop s) (cstart s) (ccomp s) (sync s) v (cb s) (slot s) (delivered s) (tres s).
-Definition set_cb v s := mk (hs s) (nthr s) (kd s) (w s) (aborted s) (stk s) (cstop s) (cstart s) (ccomp s) (sync s) (stopreq s) v (slot s) (delivered s) (tres s).
-Definition set_slot v s := mk (hs s) (nthr s) (kd s) (w s) (aborted s) (stk s) (cstop s) (cstart s) (ccomp s) (sync s) (stopreq s) (cb s) v (delivered s) (tres s).
-Definition set_delivered v s := mk (hs s) (nthr s) (kd s) (w s) (aborted s) (stk s) (cstop s) (cstart s) (ccomp s) (sync s) (stopreq s) (cb s) (slot s) v (tres s).
-Definition set_tres v s := mk (hs s) (nthr s) (kd s) (w s) (aborted s) (stk s) (cstop s) (cstart s) (ccomp s) (sync s) (stopreq s) (cb s) (slot s) (delivered s) v.
+Definition set_w v s := mk (hs s) (nthr s) (kd s) v (aborted s) (stk s) (cstop s) (cstart s) (ccomp s) (sync s) (stopreq s) (cb s) (slot s) (delivered s) (tres s) (taken s).
+Definition set_aborted v s := mk (hs s) (nthr s) (kd s) (w s) v (stk s) (cstop s) (cstart s) (ccomp s) (sync s) (stopreq s) (cb s) (slot s) (delivered s) (tres s) (taken s).
+Definition set_stk v s := mk (hs s) (nthr s) (kd s) (w s) (aborted s) v (cstop s) (cstart s) (ccomp s) (sync s) (stopreq s) (cb s) (slot s) (delivered s) (tres s) (taken s).
+Definition set_cstop v s := mk (hs s) (nthr s) (kd s) (w s) (aborted s) (stk s) v (cstart s) (ccomp s) (sync s) (stopreq s) (cb s) (slot s) (delivered s) (tres s) (taken s).
+Definition set_cstart v s := mk (hs s) (nthr s) (kd s) (w s) (aborted s) (stk s) (cstop s) v (ccomp s) (sync s) (stopreq s) (cb s) (slot s) (delivered s) (tres s) (taken s).
+Definition set_ccomp v s := mk (hs s) (nthr s) (kd s) (w s) (aborted s) (stk s) (cstop s) (cstart s) v (sync s) (stopreq s) (cb s) (slot s) (delivered s) (tres s) (taken s).
+Definition set_sync v s := mk (hs s) (nthr s) (kd s) (w s) (aborted s) (stk s) (cstop s) (cstart s) (ccomp s) v (stopreq s) (cb s) (slot s) (delivered s) (tres s) (taken s).
+Definition set_stopreq v s := mk (hs s) (nthr s) (kd s) (w s) (aborted s) (stk s) (cstop s) (cstart s) (ccomp s) (sync s) v (cb s) (slot s) (delivered s) (tres s) (taken s).
+Definition set_cb v s := mk (hs s) (nthr s) (kd s) (w s) (aborted s) (stk s) (cstop s) (cstart s) (ccomp s) (sync s) (stopreq s) v (slot s) (delivered s) (tres s) (taken s).
+Definition set_slot v s := mk (hs s) (nthr s) (kd s) (w s) (aborted s) (stk s) (cstop s) (cstart s) (ccomp s) (sync s) (stopreq s) (cb s) v (delivered s) (tres s) (taken s).
+Definition set_delivered v s := mk (hs s) (nthr s) (kd s) (w s) (aborted s) (stk s) (cstop s) (cstart s) (ccomp s) (sync s) (stopreq s) (cb s) (slot s) v (tres s) (taken s).
+Definition set_tres v s := mk (hs s) (nthr s) (kd s) (w s) (aborted s) (stk s) (cstop s) (cstart s) (ccomp s) (sync s) (stopreq s) (cb s) (slot s) (delivered s) v (taken s).
+Definition set_taken v s := mk (hs s) (nthr s) (kd s) (w s) (aborted s) (stk s) (cstop s) (cstart s) (ccomp s) (sync s) (stopreq s) (cb s) (slot s) (delivered s) (tres s) v.
 
 Definition start_stack (k : tkind) : list mop :=
   match k with
@@ -115,7 +117,7 @@ Definition init (hop_stoppable : bool) (prog : list tkind) : st :=
   let kinds := fun t => nth t prog TNone in
   mk hop_stoppable (length prog) kinds WIdle false (fun t => start_stack (kinds t))
      (fun _ => false) (fun _ => false) (fun _ => false) (fun _ => false) (fun _ => false)
-     (fun _ => CbNone) (fun _ => None) (fun _ => []) (fun _ => None).
+     (fun _ => CbNone) (fun _ => None) (fun _ => []) (fun _ => None) (fun _ => None).
 
 Definition is_caller_kind (k : tkind) : bool := match k with TCall | TThrow => true | _ => false end.
 Definition is_party_kind (k : tkind) : bool := match k with TCall | TThrow | TAccept => true | _ => false end.
@@ -169,23 +171,27 @@ Definition cas_ok (t : nat) (v : word) (rest : list mop) (s : st) : st * list ev
   | (TCall | TThrow), WAcceptor j =>
       (* call_op::start / throw_op::start 286-301, 352-358: run the call on the claimed acceptor,
          acceptor->unlocked_complete_, then resume_ of itself *)
-      (push t (MTc j false :: MTc t false :: rest) (fill j (payload_res s t) (set_w WIdle s)),
+      (set_taken (upd (taken s) t (Some j))
+         (push t (MTc j false :: MTc t false :: rest) (fill j (payload_res s t) (set_w WIdle s))),
        [ECas OAcqRel v WIdle])
   | (TCall | TThrow), WIdle => (push t rest (set_w (WCaller t) s), [ECas ORel v (WCaller t)])
   | TAccept, WCaller i =>
       (* accept_op::start 417-434: caller->call(self), try_complete(self), caller->resume_ *)
-      (push t (MTc t false :: MTc i false :: rest) (fill t (payload_res s i) (set_w WIdle s)),
+      (set_taken (upd (taken s) i (Some t))
+         (push t (MTc t false :: MTc i false :: rest) (fill t (payload_res s i) (set_w WIdle s))),
        [ECas OAcqRel v WIdle])
   | TAccept, WIdle => (push t rest (set_w (WAcceptor t) s), [ECas ORel v (WAcceptor t)])
   | TTryCall, WAcceptor j =>
       (* try_call 632-652 *)
-      (set_tres (upd (tres s) t (Some RValue))
-         (push t (MTc j false :: MRet :: rest) (fill j (RGot t) (set_w WIdle s))),
+      (set_taken (upd (taken s) t (Some j))
+         (set_tres (upd (tres s) t (Some RValue))
+            (push t (MTc j false :: MRet :: rest) (fill j (RGot t) (set_w WIdle s)))),
        [ECas OAcqRel v WIdle])
   | TTryAccept, WCaller i =>
       (* try_accept 596-614: the scope_guard resumes the caller after the call *)
-      (set_tres (upd (tres s) t (Some (payload_res s i)))
-         (push t (MTc i false :: MRet :: rest) (set_w WIdle s)),
+      (set_taken (upd (taken s) i (Some t))
+         (set_tres (upd (tres s) t (Some (payload_res s i)))
+            (push t (MTc i false :: MRet :: rest) (set_w WIdle s))),
        [ECas OAcqRel v WIdle])
   | _, _ => (push t rest s, [ECas OAcq v v])    (* not reachable: decide never asks for it *)
   end.
